@@ -1,5 +1,5 @@
 --------------------------- MODULE GenSecretFlow ---------------------------
 EXTENDS SecretFlow, Json
-GenCase == PrintT(<<"CASE", ToJson([key |-> key, hdr |-> hdr, select |-> select, envkey |-> envkey, openai |-> openai,
+GenCase == PrintT(<<"CASE", ToJson([key |-> key, hdr |-> hdr, select |-> select, envkey |-> envkey, openai |-> openai, bad |-> bad, endpoint_known |-> EndpointKnown,
                                     has |-> HasKey, source |-> Source, headers |-> HeaderNames, eff |-> EffectiveKey, doctor |-> DoctorReport])>>)
 =============================================================================
